@@ -320,19 +320,21 @@ def mass_matrices(ctx):
     for s in S:
         if s.target == "self._solve_fun" and s.guards and isinstance(s.vnode, (ast.Lambda, ast.Attribute)):
             branches[s.guards] = s
-    sq = "(%s.shape[0] Eq %s.shape[1])" % (MAT, MAT)
+    # which store serves which shape: the selecting statement is executed for a square, a thin and a thick matrix
+    from . import dispatch
+
+    sel = [st for st in init.body if isinstance(st, ast.If) and any(s.node in list(ast.walk(st)) for s in branches.values())]
     found = {}
-    for gs, s in branches.items():
-        key = None
-        g = [(t.replace(" ", ""), b) for t, b in gs]
-        if g[-1] == (sq.replace(" ", ""), True):
-            key = "square"
-        elif g[-1][0] == ("(%s.shape[0] Gt %s.shape[1])" % (MAT, MAT)).replace(" ", "") and g[-1][1] is True:
-            key = "thin"
-        elif g[-1][0] == ("(%s.shape[0] Gt %s.shape[1])" % (MAT, MAT)).replace(" ", "") and g[-1][1] is False:
-            key = "thick"
-        if key:
-            found[key] = s
+    for key, (m_, n_) in (("square", (3, 3)), ("thin", (4, 2)), ("thick", (2, 4))):
+        for flag in (False, True):
+            effs = dispatch.effects(sel, {"%s.shape[0]" % MAT: m_, "%s.shape[1]" % MAT: n_, "%s.shape" % MAT: (m_, n_), "use_mkl_pardiso": flag}, "_Solver.__init__")
+            vals = [e[2] for e in effs if e[0] == "store" and e[1] == "self._solve_fun"]
+            cands = [s for s in branches.values() if vals and unparse(s.vnode) == vals[-1]]
+            if len(cands) == 1 and found.get(key, cands[0]) is cands[0]:
+                found[key] = cands[0]
+            else:
+                found.pop(key, None)
+                break
     def solver_of(name, line):
         """NC letter of the factorised matrix behind `name`: Inv[<canonical product>]."""
         cands = [s for s in S if s.op == "=" and isinstance(s.tnode, ast.Name) and s.tnode.id == name and isinstance(s.vnode, ast.Call) and unparse(s.vnode.func) == "solver_interface"]
